@@ -42,6 +42,52 @@ def _calls_named(calls, f, cfg, pred):
     return out
 
 
+class InstanceLoop:
+    """Where the per-instance loop lives: in run() itself or in a helper that run() calls once."""
+
+    def __init__(self, prog):
+        calls = calls_of(prog)
+        run = run_func(prog)
+        vi = prog.func("cli._validate_instance")
+        self.run = run
+        self.func = None
+        for f in [run] + [x for x in prog.funcs.values() if x.mod.name == "cli" and x is not run and x is not vi]:
+            cfg = cfg_of(f)
+            for n in cfg.live:
+                if n.loops and any(t.kind == "func" and t.func is vi for (_c, tg) in calls_at(calls, f, n) for t in tg):
+                    self.func = f
+                    self.loop = n.loops[0]
+                    self.vnode = n
+                    self.vcall = [c for (c, tg) in calls_at(calls, f, n) if any(t.kind == "func" and t.func is vi for t in tg)][0]
+        if self.func is None:
+            raise AnalysisError("cli: no loop that calls _validate_instance found")
+        self.binding = {}
+        if self.func is run:
+            self.gate = self.loop
+            self.via = None
+        else:
+            rcfg = cfg_of(run)
+            hits = [(n, c) for n in rcfg.live for (c, tg) in calls_at(calls, run, n) if any(t.kind == "func" and t.func is self.func for t in tg)]
+            if len(hits) != 1:
+                raise AnalysisError("cli.run calls the instance-loop helper %d times" % len(hits))
+            self.gate, self.via = hits[0]
+            ps = self.func.params
+            for i, a in enumerate(self.via.args):
+                if i < len(ps):
+                    self.binding[ps[i]] = a
+            for k in self.via.keywords:
+                if k.arg:
+                    self.binding[k.arg] = k.value
+
+    def in_run(self, e):
+        """Translate an expression of the loop function (a parameter name) into the expression run() passed for it."""
+        if self.func is self.run:
+            return e
+        if isinstance(e, ast.Name) and e.id in self.binding:
+            return self.binding[e.id]
+        return None
+
+
 def rule_schema_gate(ctx, rid="R19.1"):
     prog = ctx.prog
     calls = calls_of(prog)
@@ -51,10 +97,8 @@ def rule_schema_gate(ctx, rid="R19.1"):
     load = find_method(prog, "cli._Outputter", "load")
     loads = _calls_named(calls, f, cfg, lambda c, tg: any(t.kind == "func" and t.func is load for t in tg))
     checks = _calls_named(calls, f, cfg, lambda c, tg: isinstance(c.func, ast.Attribute) and c.func.attr == "check_schema")
-    loops = [n for n in cfg.live if n.kind == "for" and not n.loops]
-    if not loops:
-        raise AnalysisError("cli.run: instance loop vanished")
-    loop = loops[-1]
+    il = InstanceLoop(prog)
+    loop = il.gate
     dom = cfg.dominators()
     sload = [(n, c) for (n, c) in loads if loop not in n.loops and norm(c.args[0] if c.args else None).find("schema") >= 0]
     if len(sload) != 1:
@@ -123,18 +167,18 @@ def rule_schema_gate(ctx, rid="R19.1"):
 def rule_every_instance(ctx, rid="R19.2"):
     prog = ctx.prog
     calls = calls_of(prog)
-    f = run_func(prog)
+    il = InstanceLoop(prog)
+    f = il.func
     cfg = cfg_of(f)
     rd = reaching_defs(cfg)
     r = ctx.rule(rid, "every listed instance is processed whatever happened before", floor=3)
-    loop = [n for n in cfg.live if n.kind == "for" and not n.loops][-1]
+    loop = il.loop
     body = [n for n in cfg.live if loop in n.loops]
     exits = [n for n in body if n.kind in ("break", "return", "raise")]
     for n in exits:
         r.fail("%s|loop-exit|%s" % (f.qual, n.text), site(f, n.ast), "the instance loop can be left early by `%s`" % n.text)
     if not exits:
         r.ok(site(f, loop.ast), "no break/return/raise in the instance loop (%d nodes)" % len(body))
-    # the load call inside the loop is covered by a handler for _CannotLoadFile that falls through to the header
     lds = [(n, c) for n in body for (c, tg) in calls_at(calls, f, n)
            if isinstance(c.func, ast.Name) and c.func.id == "load" or (isinstance(c.func, ast.Attribute) and c.func.attr == "load")]
     if not lds:
@@ -146,42 +190,49 @@ def rule_every_instance(ctx, rid="R19.2"):
             r.ok(site(f, c), "load failure handled inside the loop (%s)" % ", ".join("except " + norm(h.type) for h in hs))
         else:
             r.fail("%s|load-unhandled" % f.qual, site(f, c), "a load failure inside the loop is not handled there: remaining instances are skipped")
-    # iterable: all instances
-    it = loop.ast.iter
-    if isinstance(it, ast.Name):
-        defs = [cfg.nodes[d] for d in rd[loop.id].get(it.id, ())]
-        okall = bool(defs)
-        for d in defs:
-            v = None
-            a = d.ast
+
+    def full_list(v):
+        return (isinstance(v, ast.Subscript) and const_of(v.slice) == "instances" and isinstance(v.value, ast.Name)) or \
+               (isinstance(v, ast.List) and len(v.elts) == 1)
+
+    def values_in_run(name_expr):
+        """Expressions that may flow into the loop's iterable, looked up in run()."""
+        run = il.run
+        rcfg = cfg_of(run)
+        rrd = reaching_defs(rcfg)
+        at = il.gate if il.func is not run else loop
+        if not isinstance(name_expr, ast.Name):
+            return [name_expr]
+        outs = []
+        for d in rrd[at.id].get(name_expr.id, ()):
+            dn = rcfg.nodes[d]
+            a = dn.ast
             if isinstance(a, ast.Assign):
                 tg, val = a.targets[0], a.value
                 if isinstance(tg, ast.Tuple) and isinstance(val, ast.Tuple) and len(tg.elts) == len(val.elts):
-                    idx = [i for i, e in enumerate(tg.elts) if isinstance(e, ast.Name) and e.id == it.id]
-                    v = val.elts[idx[0]] if idx else None
+                    idx = [i for i, e in enumerate(tg.elts) if isinstance(e, ast.Name) and e.id == name_expr.id]
+                    outs.append(val.elts[idx[0]] if idx else None)
                 else:
-                    v = val
-            full = isinstance(v, ast.Subscript) and const_of(v.slice) == "instances" and isinstance(v.value, ast.Name)
-            stdin1 = isinstance(v, ast.List) and len(v.elts) == 1
-            if not (full or stdin1):
-                okall = False
-                r.fail("%s|iterable|%s" % (f.qual, norm(v)), site(f, d.ast), "the loop does not iterate all of arguments[\"instances\"]: %s" % norm(v))
-        if okall:
-            r.ok(site(f, loop.ast), "iterates the full instance list (or the single stdin entry)")
+                    outs.append(val)
+            else:
+                outs.append(None)
+        return outs
+    it = il.in_run(loop.ast.iter) if il.func is not il.run else loop.ast.iter
+    vals = values_in_run(it) if it is not None else [None]
+    if vals and all(v is not None and full_list(v) for v in vals):
+        r.ok(site(f, loop.ast), "iterates the full instance list (or the single stdin entry)")
     else:
-        full = isinstance(it, ast.Subscript) and const_of(it.slice) == "instances"
-        if full:
-            r.ok(site(f, loop.ast), "iterates arguments[\"instances\"]")
-        else:
-            r.fail("%s|iterable|%s" % (f.qual, norm(it)), site(f, loop.ast), "the loop iterable is %s" % norm(it))
+        r.fail("%s|iterable|%s" % (f.qual, ";".join(norm(v)[:30] for v in vals)), site(f, loop.ast),
+               "the loop does not iterate all of arguments[\"instances\"]: %s" % [norm(v) for v in vals])
     return r
 
 
 def rule_monotone_status(ctx, rid="R19.3"):
     prog = ctx.prog
-    f = run_func(prog)
+    calls = calls_of(prog)
+    il = InstanceLoop(prog)
+    f = il.func
     cfg = cfg_of(f)
-    rd = reaching_defs(cfg)
     r = ctx.rule(rid, "the exit status accumulates monotonically: once non-zero it stays non-zero", floor=4)
     rets = [n for n in cfg.live if n.kind == "return"]
     accs = {n.ast.value.id for n in rets if isinstance(n.ast.value, ast.Name)}
@@ -196,8 +247,22 @@ def rule_monotone_status(ctx, rid="R19.3"):
         elif nonzero_const(v):
             r.ok(site(f, n.ast), "returns non-zero constant %s" % norm(v))
         else:
-            r.fail("%s|return|%s" % (f.qual, norm(v)), site(f, n.ast), "run() returns %s, neither the accumulator nor a non-zero constant" % norm(v))
-    loop = [n for n in cfg.live if n.kind == "for" and not n.loops][-1]
+            r.fail("%s|return|%s" % (f.qual, norm(v)), site(f, n.ast), "%s() returns %s, neither the accumulator nor a non-zero constant" % (f.name, norm(v)))
+    if il.func is not il.run:
+        # run() must hand the helper's status on unchanged
+        rcfg = cfg_of(il.run)
+        rrd = reaching_defs(rcfg)
+        for n in [x for x in rcfg.live if x.kind == "return"]:
+            v = n.ast.value
+            ok = nonzero_const(v) or v is il.via
+            if isinstance(v, ast.Name):
+                defs = [rcfg.nodes[d] for d in rrd[n.id].get(v.id, ())]
+                ok = bool(defs) and all(isinstance(d.ast, ast.Assign) and d.ast.value is il.via for d in defs)
+            if ok:
+                r.ok(site(il.run, n.ast), "run() returns %s" % norm(v)[:40])
+            else:
+                r.fail("%s|return|%s" % (il.run.qual, norm(v)[:40]), site(il.run, n.ast), "run() returns %s, neither the loop's status nor a non-zero constant" % norm(v)[:50])
+    loop = il.loop
     from ..cfg import node_defs
     defs = [n for n in cfg.live if acc in node_defs(n)]
     init = [n for n in defs if loop not in n.loops]
@@ -235,6 +300,72 @@ def rule_monotone_status(ctx, rid="R19.3"):
     return r
 
 
+def _scenario(cfg, calls, f, loop, n_errors):
+    """Abstractly run _validate_instance when iter_errors yields n_errors (0 or 2) errors; booleans of plain locals are tracked.
+    Returns dict(reports=int, successes=int, ret=True/False/None, unknown=bool)."""
+    env = {}
+    out = {"reports": 0, "successes": 0, "ret": None, "unknown": False, "report_args": []}
+    n = cfg.entry
+    left = n_errors
+    steps = 0
+
+    def ev(e):
+        if isinstance(e, ast.Constant):
+            return bool(e.value)
+        if isinstance(e, ast.Name):
+            return env.get(e.id)
+        if isinstance(e, ast.UnaryOp) and isinstance(e.op, ast.Not):
+            v = ev(e.operand)
+            return None if v is None else not v
+        return None
+    while steps < 300:
+        steps += 1
+        if n.kind == "exit":
+            if out["ret"] is None:
+                out["ret"] = False      # falls off the end: None is falsy
+            return out
+        for (c, tg) in calls_at(calls, f, n):
+            if isinstance(c.func, ast.Attribute) and c.func.attr == "validation_error":
+                out["reports"] += 1
+                out["report_args"].append(c)
+            if isinstance(c.func, ast.Attribute) and c.func.attr == "validation_success":
+                out["successes"] += 1
+        if n.kind == "for":
+            if n is loop:
+                if left > 0:
+                    left -= 1
+                    nxt = [t for (l, t) in n.succ if l == "iter"]
+                else:
+                    nxt = [t for (l, t) in n.succ if l == "done"]
+            else:
+                out["unknown"] = True
+                return out
+        elif n.kind == "test":
+            v = ev(n.ast)
+            if v is None:
+                out["unknown"] = True
+                return out
+            nxt = [t for (l, t) in n.succ if l == ("true" if v else "false")]
+        elif n.kind == "return":
+            v = n.ast.value
+            out["ret"] = ev(v) if v is not None else False
+            if out["ret"] is None:
+                out["unknown"] = True
+            return out
+        elif n.kind == "stmt" and isinstance(n.ast, ast.Assign) and isinstance(n.ast.targets[0], ast.Name):
+            env[n.ast.targets[0].id] = ev(n.ast.value)
+            nxt = [t for (l, t) in n.succ if l == "next"]
+        elif n.kind in ("break",):
+            nxt = [t for (l, t) in n.succ]
+        else:
+            nxt = [t for (l, t) in n.succ if l not in ("exc", "close")]
+        if not nxt:
+            return out
+        n = nxt[0]
+    out["unknown"] = True
+    return out
+
+
 def rule_validate_instance(ctx, rid="R19.4"):
     prog = ctx.prog
     calls = calls_of(prog)
@@ -255,52 +386,29 @@ def rule_validate_instance(ctx, rid="R19.4"):
     else:
         r.fail("%s|iter_errors-args|%s" % (f.qual, norm(ic)), site(f, ic), "errors are not those of the given validator on the given instance: %s" % norm(ic))
     lv = loop.ast.target.id if isinstance(loop.ast.target, ast.Name) else None
-    body = [n for n in cfg.live if loop in n.loops]
-    ve = [(n, c) for n in body for (c, tg) in calls_at(calls, f, n) if isinstance(c.func, ast.Attribute) and c.func.attr == "validation_error"]
-    exits = [n for n in body if n.kind in ("break", "return", "raise", "continue")]
-    # unconditional: every path from the iter edge back to the header passes through the report node
-    if len(ve) == 1 and not exits:
-        vn, vc = ve[0]
-        seen, todo, leak = set(), [x for (l, x) in loop.succ if l == "iter"], False
-        while todo:
-            x = todo.pop()
-            if x.id in seen or x is vn:
-                continue
-            seen.add(x.id)
-            if x is loop:
-                leak = True
-                break
-            todo.extend(y for (l, y) in x.succ if l != "exc")
-        ea = next((k.value for k in vc.keywords if k.arg == "error"), vc.args[1] if len(vc.args) > 1 else None)
-        if not leak and isinstance(ea, ast.Name) and ea.id == lv:
-            r.ok(site(f, vc), "validation_error(error=<loop variable>) on every iteration")
-        else:
-            r.fail("%s|report|%s" % (f.qual, norm(vc)[:60]), site(f, vc), "an error can go unreported or the reported object is not the loop's error")
-    else:
-        r.fail("%s|report-shape" % f.qual, site(f, loop.ast), "error loop has %d report calls and %d early exits" % (len(ve), len(exits)))
-    # flag
-    rets = [n for n in cfg.live if n.kind == "return"]
-    flag = rets[0].ast.value.id if len(rets) == 1 and isinstance(rets[0].ast.value, ast.Name) else None
-    if flag is None:
-        r.fail("%s|flag" % f.qual, site(f), "cannot identify the returned flag")
+    # abstract runs: no error / two errors
+    s0 = _scenario(cfg, calls, f, loop, 0)
+    s2 = _scenario(cfg, calls, f, loop, 2)
+    if s0["unknown"] or s2["unknown"]:
+        r.fail("%s|undetermined" % f.qual, site(f), "cannot follow the control flow of _validate_instance (unrecognised condition)")
         return r
-    sets = [n for n in body if n.kind == "stmt" and isinstance(n.ast, ast.Assign) and norm(n.ast.targets[0]) == flag]
-    inits = [n for n in cfg.live if n.kind == "stmt" and isinstance(n.ast, ast.Assign) and norm(n.ast.targets[0]) == flag and loop not in n.loops]
-    if len(sets) >= 1 and all(const_of(n.ast.value) is True for n in sets) and len(inits) == 1 and const_of(inits[0].ast.value) is False:
-        r.ok(site(f, sets[0].ast), "flag False before the loop, True in every iteration")
+    if s0["reports"] == 0 and s0["successes"] == 1 and s0["ret"] is False:
+        r.ok(site(f), "no error: nothing reported, one validation_success, returns a falsy status")
     else:
-        r.fail("%s|flag-defs" % f.qual, site(f), "flag is not False initially and True after any error")
-    vs = [(n, c) for n in cfg.live for (c, tg) in calls_at(calls, f, n) if isinstance(c.func, ast.Attribute) and c.func.attr == "validation_success"]
-    if len(vs) == 1:
-        n, c = vs[0]
-        preds = n.pred
-        ok = all(p.kind == "test" and isinstance(p.ast, ast.Name) and p.ast.id == flag and l == "false" for (l, p) in preds) and loop not in n.loops
-        if ok:
-            r.ok(site(f, c), "validation_success exactly on the flag-false edge, after the loop")
+        r.fail("%s|no-error-scenario" % f.qual, site(f),
+               "with no error: %d reports, %d success messages, returns %s (expected 0, 1, falsy)" % (s0["reports"], s0["successes"], s0["ret"]))
+    if s2["reports"] == 2 and s2["successes"] == 0 and s2["ret"] is True:
+        r.ok(site(f), "two errors: two reports, no success message, returns a truthy status")
+    else:
+        r.fail("%s|errors-scenario" % f.qual, site(f),
+               "with two errors: %d reports, %d success messages, returns %s (expected 2, 0, truthy)" % (s2["reports"], s2["successes"], s2["ret"]))
+    for c in s2["report_args"][:1]:
+        ea = next((k.value for k in c.keywords if k.arg == "error"), c.args[1] if len(c.args) > 1 else None)
+        pa = next((k.value for k in c.keywords if k.arg == "instance_path"), c.args[0] if c.args else None)
+        if isinstance(ea, ast.Name) and ea.id == lv and isinstance(pa, ast.Name) and pa.id == ps[0]:
+            r.ok(site(f, c), "validation_error(instance_path=<own path>, error=<loop variable>)")
         else:
-            r.fail("%s|success-condition" % f.qual, site(f, c), "validation_success is not reported exactly when no error was seen")
-    else:
-        r.fail("%s|success-calls:%d" % (f.qual, len(vs)), site(f), "expected exactly one validation_success call, found %d" % len(vs))
+            r.fail("%s|report-args|%s" % (f.qual, norm(c)[:60]), site(f, c), "the reported object is not the loop's error under the function's own path")
     return r
 
 
@@ -448,15 +556,12 @@ def rule_validator_built_once(ctx, rid="R19.8"):
     """The validator used for every instance is built once from the checked schema with the chosen class."""
     prog = ctx.prog
     calls = calls_of(prog)
-    f = run_func(prog)
+    il = InstanceLoop(prog)
+    f = il.func
     cfg = cfg_of(f)
     r = ctx.rule(rid, "one validator, built from the checked schema, validates every instance", floor=2)
-    loop = [n for n in cfg.live if n.kind == "for" and not n.loops][-1]
-    vi = [(n, c) for n in cfg.live for (c, tg) in calls_at(calls, f, n) if any(t.kind == "func" and t.func.name == "_validate_instance" for t in tg)]
-    if len(vi) != 1 or loop not in vi[0][0].loops:
-        r.fail("%s|validate-call" % f.qual, site(f), "expected exactly one _validate_instance call inside the loop")
-        return r
-    n, c = vi[0]
+    loop = il.loop
+    n, c = il.vnode, il.vcall
     kw = {k.arg: k.value for k in c.keywords}
     g = prog.func("cli._validate_instance")
     for i, a in enumerate(c.args):
@@ -464,13 +569,26 @@ def rule_validator_built_once(ctx, rid="R19.8"):
     lv = loop.ast.target.id if isinstance(loop.ast.target, ast.Name) else None
     rd = reaching_defs(cfg)
     vname = kw.get("validator")
-    ok = isinstance(vname, ast.Name)
-    if ok:
-        defs = [cfg.nodes[d] for d in rd[n.id].get(vname.id, ())]
-        ok = len(defs) == 1 and loop not in defs[0].loops and isinstance(defs[0].ast, ast.Assign) and isinstance(defs[0].ast.value, ast.Call)
-        if ok:
-            cc = defs[0].ast.value
-            ok = "validator" in norm(cc.func) and cc.args and isinstance(cc.args[0], ast.Name) and cc.args[0].id == "schema"
+    run = il.run
+    rcfg = cfg_of(run)
+    rrd = reaching_defs(rcfg)
+    ok = False
+    if isinstance(vname, ast.Name):
+        if il.func is run:
+            at, name = n, vname.id
+        else:
+            tr = il.in_run(vname)
+            at, name = il.gate, (tr.id if isinstance(tr, ast.Name) else None)
+            # the helper must not rebind its parameter
+            if any(cfg.nodes[d] is not cfg.entry for d in rd[n.id].get(vname.id, ())):
+                name = None
+        if name is not None:
+            defs = [rcfg.nodes[d] for d in rrd[at.id].get(name, ())]
+            in_loop = (lambda d: (il.func is run and loop in d.loops))
+            ok = len(defs) == 1 and not in_loop(defs[0]) and isinstance(defs[0].ast, ast.Assign) and isinstance(defs[0].ast.value, ast.Call)
+            if ok:
+                cc = defs[0].ast.value
+                ok = "validator" in norm(cc.func) and cc.args and isinstance(cc.args[0], ast.Name) and cc.args[0].id == "schema"
     if ok:
         r.ok(site(f, c), "validator built once before the loop from the loaded schema")
     else:
